@@ -1001,6 +1001,9 @@ void ReaderMgr::reset()
     // Reset all of the flags
     fThrowEOE = false;
 
+    // A document without XMLDecl is XML 1.0, whatever was parsed before
+    fXMLVersion = XMLReader::XMLV1_0;
+
     // Delete the current reader and flush the reader stack
     delete fCurReaderData;
     fCurReaderData = 0;
